@@ -32,29 +32,48 @@ def strip_runs(lines):
     return out
 
 
+class _Junk:
+    """objects of about the size of the library's own, kept alive to move later allocations elsewhere"""
+
+    def __init__(self, i):
+        self.i = i
+        self.more = [i]
+
+
 def _pair(job):
     from . import floor_tracer as T
     tid, what, cfg, seed, arg = job
+    pairs = []
     if what == 'sameseed':
         # default device names (they contain the asset id), so that nothing but the ids differs between the runs
         cfg = dict(cfg, noname=True)
         a, ea = T.run_cfg(tid, cfg, seed, id_offset=100000)
-        b, eb = T.run_cfg(tid, cfg, seed, id_offset=arg)
         la = [{'ev': x['ev'], 'st': x['st']} for x in a]
-        lb = [{'ev': x['ev'], 'st': x['st']} for x in b]
+        # nor may the result depend on where objects happen to live in memory: the repeat runs are made after
+        # unrelated allocations (more of them for the families that rebuild collections while running)
+        keep = []
+        reps = 4 if cfg.get('family', '').startswith('rewire') else 1
+        err = ea
+        for r in range(reps):
+            keep.append([_Junk(i) for i in range((arg + 7 * r) % 23 + 3 * r + 1)])
+            b, eb = T.run_cfg(tid, cfg, seed, id_offset=arg + r)
+            err = err or eb
+            pairs.append((la, [{'ev': x['ev'], 'st': x['st']} for x in b]))
     else:
         one = dict(cfg, splits=[])
         two = dict(cfg, splits=arg)
         a, ea = T.run_cfg(tid, one, seed, fixed=seed + 1)
         b, eb = T.run_cfg(tid, two, seed, fixed=seed + 1)
-        la, lb = strip_runs(a), strip_runs(b)
+        err = ea or eb
+        pairs.append((strip_runs(a), strip_runs(b)))
     lines = []
-    n = max(len(la), len(lb))
-    for k in range(n):
-        sa = json.dumps(la[k], sort_keys=True) if k < len(la) else ''
-        sb = json.dumps(lb[k], sort_keys=True) if k < len(lb) else ''
-        lines.append({'tid': tid, 'k': k, 'ev': {'what': what, 'na': len(la), 'nb': len(lb)}, 'a': sa, 'b': sb})
-    return lines, (ea or eb)
+    for la, lb in pairs:
+        n = max(len(la), len(lb))
+        for k in range(n):
+            sa = json.dumps(la[k], sort_keys=True) if k < len(la) else ''
+            sb = json.dumps(lb[k], sort_keys=True) if k < len(lb) else ''
+            lines.append({'tid': tid, 'k': len(lines), 'ev': {'what': what, 'na': len(la), 'nb': len(lb)}, 'a': sa, 'b': sb})
+    return lines, err
 
 
 def _multi(tid0, n, mp, seed, horizon=12):
@@ -91,7 +110,8 @@ def _pipeline(tier):
     rng = random.Random(C.seed() + 99)
     rng.shuffle(cfgs)
     # groups (their input / output lists are built from caller-supplied collections) always take part
-    cfgs = [c for c in cfgs if c.get('family', '').startswith('groups')] + [c for c in cfgs if not c.get('family', '').startswith('groups')]
+    first = ('groups', 'rewire')      # collections supplied by the caller / rebuilt while running: always take part
+    cfgs = [c for c in cfgs if c.get('family', '').startswith(first)] + [c for c in cfgs if not c.get('family', '').startswith(first)]
     cfgs = cfgs[:T['ncfg']]
     jobs = []
     for c in cfgs:
